@@ -13,8 +13,6 @@ package main
 
 import (
 	"fmt"
-	"os"
-	"runtime/pprof"
 
 	"github.com/jech/galene/rtpconn"
 
@@ -139,6 +137,84 @@ func corpus(t *tr.Trace, r *tr.Rand) {
 		h.state("ga")
 		h.state("gb")
 		t.Nontrivial("corpus-F11")
+		h.close()
+	}
+	// revocation: losing `present` closes the up streams of the target, be it
+	// an operator or not, and later offers are refused
+	{
+		h := newHist(t, r, "corpus-revocation")
+		h.mkgroup(sigdrv.GroupSpec{Name: "g", Users: []sigdrv.User{opUser(),
+			{Name: "op2", Password: "pw", Permissions: []string{"op", "present", "message"}},
+			{Name: "pres", Password: "pw", Permissions: []string{"present", "message"}}}})
+		a := h.client("a")
+		b := h.client("b")
+		c := h.client("c")
+		h.send(a, join("g", "oper", "pwo"))
+		h.send(b, join("g", "op2", "pw"))
+		h.send(c, join("g", "pres", "pw"))
+		h.quiesce()
+		for _, x := range []*cl{b, c} {
+			h.send(x, &smsg{Type: "offer", ID: "s1", SDP: "good", Label: "camera"})
+			h.send(x, &smsg{Type: "offer", ID: "s2", SDP: "min"})
+			h.ups(x)
+		}
+		h.send(a, &smsg{Type: "useraction", Kind: "unpresent", Dest: "b"})
+		h.send(a, &smsg{Type: "useraction", Kind: "unpresent", Dest: "c"})
+		// between the two batches of its queue the target is already
+		// refused, although it has not been notified yet
+		h.pump(b)
+		h.send(b, &smsg{Type: "offer", ID: "s3", SDP: "min"})
+		h.pump(b)
+		h.pump(c)
+		h.pump(c)
+		h.drainAll()
+		for _, x := range []*cl{b, c} {
+			h.ups(x)
+			h.send(x, &smsg{Type: "offer", ID: "s4", SDP: "good"})
+			t.Checked("C11.unpresent_closes_streams")
+			if ids := x.c.UpIds(); len(ids) != 0 {
+				t.Fail("C11", "unpresent_closes_streams", fmt.Sprintf("client %d lost `present` and was notified but still has up streams %v", x.h, ids))
+			}
+		}
+		h.quiesce()
+		h.drainAll()
+		t.Nontrivial("corpus-revocation")
+		h.close()
+	}
+	// X3: a token minted with duplicated permissions; one unpresent and one
+	// shutup must revoke them (remove() deleted only the first occurrence)
+	{
+		h := newHist(t, r, "corpus-X3")
+		h.mkgroup(sigdrv.GroupSpec{Name: "g", Users: []sigdrv.User{opUser(),
+			{Name: "tk", Password: "pw", Permissions: []string{"present", "message", "token"}}}})
+		a := h.client("a")
+		b := h.client("b")
+		h.send(a, join("g", "oper", "pwo"))
+		h.send(b, join("g", "tk", "pw"))
+		h.quiesce()
+		h.send(b, &smsg{Type: "groupaction", Kind: "maketoken", Value: tokenValue("g",
+			[]string{"present", "present", "message", "message"}, 3600000)})
+		c := h.client("c")
+		h.send(c, &smsg{Type: "join", Kind: "join", Group: "g", Token: "T000", User: sp("friend")})
+		h.quiesce()
+		h.drainAll()
+		h.send(a, &smsg{Type: "useraction", Kind: "unpresent", Dest: "c"})
+		h.send(a, &smsg{Type: "useraction", Kind: "shutup", Dest: "c"})
+		h.pump(c)
+		h.pump(c)
+		h.pump(c)
+		h.drainAll()
+		offer := h.send(c, &smsg{Type: "offer", ID: "s1", SDP: "good"})
+		chat := h.send(c, &smsg{Type: "chat", ID: "m1", Value: val{Kind: "s", S: "hello"}})
+		h.quiesce()
+		h.drainAll()
+		h.ups(c)
+		t.Checked("C11.revocation_effective")
+		if p := c.c.Permissions(); has(p, "present") || has(p, "message") || offer.auth != "notauth" || chat.auth != "notauth" || len(c.c.UpIds()) != 0 {
+			t.Fail("C11", "revocation_effective", fmt.Sprintf("a member who joined with a token granting [present present message message] was sent unpresent and shutup by an operator and served them: permissions %v, offer %s, chat %s, up streams %v (X3)",
+				p, offer.auth, chat.auth, c.c.UpIds()))
+		}
+		t.Nontrivial("corpus-X3")
 		h.close()
 	}
 	// X1: `present` granted, the target leaves before serving its queue,
@@ -556,6 +632,7 @@ func exhaustive(t *tr.Trace, r *tr.Rand) {
 func runSig(t *tr.Trace, r *tr.Rand, n int) {
 	sigdrv.Quiet()
 	corpus(t, r)
+	whipHistory(t, r)
 	rtpconn.VerifWriteBuffer = 1 << 10 // 75000 short-lived clients
 	exhaustive(t, r)
 	rtpconn.VerifWriteBuffer = 1 << 13
@@ -564,11 +641,4 @@ func runSig(t *tr.Trace, r *tr.Rand, n int) {
 	}
 }
 
-func main() {
-	if f := os.Getenv("SIG_PROF"); f != "" {
-		fh, _ := os.Create(f)
-		pprof.StartCPUProfile(fh)
-		defer pprof.StopCPUProfile()
-	}
-	tr.Main(runSig)
-}
+func main() { tr.Main(runSig) }
